@@ -107,6 +107,36 @@ Proof.
   - vm_compute. intros [H|[H|[]]]; discriminate.
 Qed.
 
+(* Router.compile_program twice, scratch convention, methods echo(a, *, output) and add(a, b, *, output).
+   First call: ids 256 257 for echo's decoded argument and output_temp, 258 259 for echo's declaration
+   (evaluated by store_into while the AST is built, and cached), 260 261 262 for add's, 263 264 265 for
+   add's declaration; the cleaning context rewinds to 256.  Second call: both declarations are cached,
+   the build hands out 256..260 — 258 and 259 now name echo's cached declaration slots AND add's decoded
+   arguments: live objects with equal ids (then C11_assign_tie_order_dependent applies). *)
+Definition echo_spec : subspec := mkSpec [AAbi] true [] false [].
+Definition add_spec : subspec := mkSpec [AAbi; AAbi] true [] false [].
+Definition router_ops : list op :=
+  [ODefSub 1 echo_spec; ODefSub 2 add_spec;
+   ORouter [mkM 1 1 true; mkM 2 2 true] [] false; ORouter [mkM 1 1 true; mkM 2 2 true] [] false].
+
+Lemma router_recompile_traces m :
+  run_session_tr m init_sstate router_ops =
+  [[TSub 0]; [TSub 1];
+   [TSlot 256; TSlot 257; TSlot 258; TSlot 259; TSlot 260; TSlot 261; TSlot 262; TSlot 263; TSlot 264; TSlot 265];
+   [TSlot 256; TSlot 257; TSlot 258; TSlot 259; TSlot 260]].
+Proof. destruct m; vm_compute; reflexivity. Qed.
+
+Lemma router_recompile_reuses_cached_ids_proof :
+  exists (ops : list op) (first second : list titem) (i : N),
+    nth_error (run_session_tr Faithful init_sstate ops) 2 = Some first /\
+    nth_error (run_session_tr Faithful init_sstate ops) 3 = Some second /\
+    (* position 2 of the first build is echo's cached declaration; position 2 of the second is add's new argument *)
+    nth_error first 2 = Some (TSlot i) /\ nth_error second 2 = Some (TSlot i).
+Proof.
+  exists router_ops. rewrite router_recompile_traces. do 2 eexists. exists 258.
+  repeat split; reflexivity.
+Qed.
+
 (* ---------------- non-vacuity ---------------- *)
 Example shift_example :
   let h := [evs_of_list [EAlloc; EAlloc; EDefSub]; one (EProbe (evs_of_list [EAlloc; EAlloc]))] in
